@@ -88,9 +88,24 @@ def execute(stage, prop: str, case, stats: Stats) -> None:
             exp = forkrun.run_in_child(_child_run, (stage, prop, case),
                                        timeout=stage.timeout)
         except forkrun.ChildTimeout:
-            stats.inconclusive += 1
-            stats.labels["inconclusive:timeout"] += 1
-            return
+            if stage.timeout_violation is None:
+                stats.inconclusive += 1
+                stats.labels["inconclusive:timeout"] += 1
+                return
+            try:
+                exp = forkrun.run_in_child(_child_run, (stage, prop, case),
+                                           timeout=2 * stage.timeout)
+            except forkrun.ChildTimeout:
+                clause, signature, details = stage.timeout_violation(case)
+                known = core.open_finding_for(prop, signature)
+                if known is not None:
+                    stats.known[known["key"]] += 1
+                    stats.evaluations += 1
+                    return
+                raise Violation(
+                    prop, clause, signature,
+                    f"no answer within {stage.timeout:.0f} s and again within "
+                    f"{2 * stage.timeout:.0f} s: {details}") from None
     else:
         ctx = CaseCtx(prop)
         try:
